@@ -51,7 +51,7 @@ def run(tier, replay=None):
     # --- the reloader thread itself: traces of init_file's refresh thread (sleep / edit / apply events, all emitted
     # on that thread) must be behaviours of Reloader.tla where every sleep lasts the current rate
     ltp = os.path.join(wd, "reloadlive.ndjson")
-    nlive = 3 if tier == "quick" else 12
+    nlive = 6 if tier == "quick" else 18
     p = C.run_harness(["reloadlive", ltp, str(nlive)], timeout=900)
     lsumm = json.loads(p.stdout.strip().splitlines()[-1])
     if lsumm["sleeps"] == 0:
@@ -77,12 +77,13 @@ def run(tier, replay=None):
                 "a behaviour of Reconfig.tla; reloader: every history of <= 4 (quick) edits / polls over 2 versions x "
                 "3 rates (incl. rate removal) x 2 broken texts x deletion x touch, in YAML / JSON / TOML, replayed "
                 "through VerifReloader::run_once with explicit mtimes; non-trivial = histories with an error, a "
-                "stop or an applied change; reloader thread: 3 (quick) / 12 (thorough) scripted lifetimes of the real "
+                "stop or an applied change; reloader thread: 6 (quick) / 18 (thorough) scripted lifetimes of the real "
                 "init_file refresh thread with rates of 10-30 ms (rate changes, rate-only change, touch, broken text, "
-                "deletion and restoration, rate removal), validated as traces against Reloader.tla: every sleep "
+                "deletion and restoration, rate removal; the configured path a plain file or a symbolic link re-pointed at every "
+                "edit), validated as traces against Reloader.tla: every sleep "
                 "lasts the rate of the last applied file")
     run.assumptions = ["harness events are totally ordered by one mutex; load / max update / store are silent steps "
                        "inferred by TLC", "free-running schedules are sampled, directed ones are deterministic",
                        "the reloader histories drive run_once step by step; the sleep loop (run) is covered by the recorded "
-                       "lifetimes of the real thread, whose script is fixed (3 scripts x 3 formats)"]
+                       "lifetimes of the real thread, whose script is fixed (3 scripts x 3 formats x plain file / re-pointed symbolic link)"]
     return run.finish()
